@@ -124,9 +124,11 @@ theorem save_ok_spec (P : Params V) (L : Layout) (d d' : Doc V) (i : SaveInfo) (
         d.tr.root (prep d).infoRef d.tr.prev = lt at h
       cases lt with
       | ok tr =>
-        simp only [Prod.mk.injEq, Out.ok.injEq] at h
-        obtain ⟨rfl, rfl⟩ := h
-        exact ⟨w, rows, rfl, hr, rfl, hl, rfl, rfl, rfl, rfl, by omega⟩
+        by_cases ht : L.typed = true
+        · simp only [ht, if_true, Prod.mk.injEq, Out.ok.injEq] at h
+          obtain ⟨rfl, rfl⟩ := h
+          exact ⟨w, rows, rfl, hr, rfl, hl, rfl, rfl, rfl, rfl, by omega⟩
+        · simp [ht] at h
       | err => simp at h
       | panic => simp at h
       | oof => simp at h
@@ -425,8 +427,8 @@ theorem save_cases (P : Params V) (L : Layout) (d0 d : Doc V) (chain0) (hb : Bas
           rowsOf ((w.refs.set (prep d).xid (.raw (w.len - (prep d).st2.start) 0)).take ((prep d).xid + 1)) = some rows ∧
           ((∃ i tr, save P L d =
               (⟨commit P L d (prep d) w (w.refs.set (prep d).xid (.raw (w.len - (prep d).st2.start) 0)) rows, tr⟩, .ok i)) ∨
-            (loadTrailer (commit P L d (prep d) w (w.refs.set (prep d).xid (.raw (w.len - (prep d).st2.start) 0)) rows)
-                d.tr.root (prep d).infoRef d.tr.prev = .err ∧
+            ((loadTrailer (commit P L d (prep d) w (w.refs.set (prep d).xid (.raw (w.len - (prep d).st2.start) 0)) rows)
+                d.tr.root (prep d).infoRef d.tr.prev = .err ∨ L.typed = false) ∧
              save P L d =
               (⟨commit P L d (prep d) w (w.refs.set (prep d).xid (.raw (w.len - (prep d).st2.start) 0)) rows, d.tr⟩, .err)))) := by
   have pf := prep_facts d0 d chain0 hb hi
@@ -453,10 +455,15 @@ theorem save_cases (P : Params V) (L : Layout) (d0 d : Doc V) (chain0) (hb : Bas
         d.tr.root (prep d).infoRef d.tr.prev = lt
       cases lt with
       | ok tr =>
-        left
-        refine ⟨saveInfoOf (prep d) w (w.refs.set (prep d).xid (.raw (w.len - (prep d).st2.start) 0)) rows, tr, ?_⟩
-        unfold save; simp only [hnb, if_false, hw, hr, hl]
-      | err => right; refine ⟨rfl, ?_⟩; unfold save; simp only [hnb, if_false, hw, hr, hl]
+        by_cases ht : L.typed = true
+        · left
+          refine ⟨saveInfoOf (prep d) w (w.refs.set (prep d).xid (.raw (w.len - (prep d).st2.start) 0)) rows, tr, ?_⟩
+          unfold save; simp only [hnb, if_false, hw, hr, hl, ht, if_true]
+        · right
+          have ht' : L.typed = false := by simpa using ht
+          refine ⟨Or.inr ht', ?_⟩
+          unfold save; simp only [hnb, if_false, hw, hr, hl, ht', Bool.false_eq_true]
+      | err => right; refine ⟨Or.inl rfl, ?_⟩; unfold save; simp only [hnb, if_false, hw, hr, hl]
       | panic =>
         exact absurd hl (loadTrailer_total _ _ _ _).1
       | oof => exact absurd hl (loadTrailer_total _ _ _ _).2
@@ -490,6 +497,21 @@ theorem inv_save (P : Params V) (L : Layout) (hL : L.Pos) (d0 d : Doc V) (chain0
     · rw [hs]
       exact ⟨inv_of_commit P L hL d0 d _ chain0 hb hi w rows hw rfl rfl, Or.inr rfl⟩
 
+/-- a save succeeds only if the typed reload of the trailer does -/
+theorem save_ok_typed (P : Params V) (L : Layout) (d d' : Doc V) (i : SaveInfo) (h : save P L d = (d', .ok i)) :
+    L.typed = true := by
+  unfold save at h
+  by_cases hbig : d.st.refs.length + 2 > MAX_ID
+  · simp [hbig] at h
+  simp only [hbig, if_false] at h
+  by_cases ht : L.typed = true
+  · exact ht
+  · exfalso
+    have ht' : L.typed = false := by simpa using ht
+    simp only [ht', Bool.false_eq_true, if_false] at h
+    repeat' split at h
+    all_goals simp at h
+
 /-- the `SaveInfo` a successful save returns is the one its cross-reference stream value was made from -/
 theorem save_ok_info (P : Params V) (L : Layout) (d d' : Doc V) (i : SaveInfo) (h : save P L d = (d', .ok i))
     (w : Written V) (rows : List XRef)
@@ -501,7 +523,113 @@ theorem save_ok_info (P : Params V) (L : Layout) (d d' : Doc V) (i : SaveInfo) (
   by_cases hbig : d.st.refs.length + 2 > MAX_ID
   · simp [hbig] at h
   simp only [hbig, if_false, hw, hr] at h
-  split at h <;> simp only [Prod.mk.injEq, Out.ok.injEq, reduceCtorEq, and_false] at h
-  exact h.2.symm
+  split at h
+  · split at h <;> simp only [Prod.mk.injEq, Out.ok.injEq, reduceCtorEq, and_false] at h
+    exact h.2.symm
+  all_goals simp only [Prod.mk.injEq, Out.ok.injEq, reduceCtorEq, and_false] at h
+
+/-! ### the revision is in the backend: what holds as soon as `write_revision` succeeded, whatever follows -/
+
+/-- `write_revision` succeeded: the revision described by `i` was appended, `st'` is the storage after it (new table,
+    cross-reference stream pending, backend grown). This is the state of a successful save and equally of a save that
+    fails afterwards (`Trailer::from_dict`). -/
+def Committed (P : Params V) (L : Layout) (d : Doc V) (st' : St V) (i : SaveInfo) : Prop :=
+  ∃ (w : Written V) (rows : List XRef),
+    writeChanges P L (prep d).st2.start (prep d).st2.changes ⟨(prep d).st2.refs, (prep d).st2.objs, (prep d).st2.len⟩
+      = (w, .ok ()) ∧
+    rowsOf ((w.refs.set (prep d).xid (.raw (w.len - (prep d).st2.start) 0)).take ((prep d).xid + 1)) = some rows ∧
+    st' = commit P L d (prep d) w (w.refs.set (prep d).xid (.raw (w.len - (prep d).st2.start) 0)) rows ∧
+    i = saveInfoOf (prep d) w (w.refs.set (prep d).xid (.raw (w.len - (prep d).st2.start) 0)) rows ∧
+    d.st.refs.length + 2 ≤ MAX_ID
+
+theorem committed_of_ok (P : Params V) (L : Layout) (d d' : Doc V) (i : SaveInfo) (h : save P L d = (d', .ok i)) :
+    Committed P L d d'.st i := by
+  obtain ⟨w, rows, hw, hr, hst, _, _, _, _, _, hmax⟩ := save_ok_spec P L d d' i h
+  exact ⟨w, rows, hw, hr, hst, save_ok_info P L d d' i h w rows hw hr, hmax⟩
+
+/-- the facts of `save_ok_spec` that do not depend on what happens after the write (same shape: the place of the
+    trailer load is taken by `True`) -/
+theorem Committed.spec' {P : Params V} {L : Layout} {d : Doc V} {st' : St V} {i : SaveInfo} (h : Committed P L d st' i) :
+    ∃ (w : Written V) (rows : List XRef),
+      writeChanges P L (prep d).st2.start (prep d).st2.changes ⟨(prep d).st2.refs, (prep d).st2.objs, (prep d).st2.len⟩
+        = (w, .ok ()) ∧
+      rowsOf ((w.refs.set (prep d).xid (.raw (w.len - (prep d).st2.start) 0)).take ((prep d).xid + 1)) = some rows ∧
+      st' = commit P L d (prep d) w (w.refs.set (prep d).xid (.raw (w.len - (prep d).st2.start) 0)) rows ∧
+      True ∧
+      i.xid = (prep d).xid ∧ i.xpos = w.len - (prep d).st2.start ∧ i.size = (prep d).size ∧ i.rows = rows ∧
+      d.st.refs.length + 2 ≤ MAX_ID := by
+  obtain ⟨w, rows, hw, hr, hst, hi, hmax⟩ := h
+  subst hi
+  exact ⟨w, rows, hw, hr, hst, trivial, rfl, rfl, rfl, rfl, hmax⟩
+
+theorem Committed.info {P : Params V} {L : Layout} {d : Doc V} {st' : St V} {i : SaveInfo} (h : Committed P L d st' i)
+    (w : Written V) (rows : List XRef)
+    (hw : writeChanges P L (prep d).st2.start (prep d).st2.changes ⟨(prep d).st2.refs, (prep d).st2.objs, (prep d).st2.len⟩
+        = (w, .ok ()))
+    (hr : rowsOf ((w.refs.set (prep d).xid (.raw (w.len - (prep d).st2.start) 0)).take ((prep d).xid + 1)) = some rows) :
+    i = saveInfoOf (prep d) w (w.refs.set (prep d).xid (.raw (w.len - (prep d).st2.start) 0)) rows := by
+  obtain ⟨w', rows', hw', hr', _, hi, _⟩ := h
+  rw [hw] at hw'
+  simp only [Prod.mk.injEq, and_true] at hw'
+  subst hw'
+  rw [hr] at hr'
+  simp only [Option.some.injEq] at hr'
+  subst hr'
+  exact hi
+
+/-- the state after the write is a state of the invariant (with the caller's trailer, replaced or not) -/
+theorem inv_committed (P : Params V) (L : Layout) (hL : L.Pos) (d0 d d' : Doc V) (chain0) (i : SaveInfo)
+    (hb : BaseOK d0 chain0) (hi : Inv d0 d) (h : Committed P L d d'.st i) (htr : d'.tr = d.tr) : Inv d0 d' := by
+  obtain ⟨w, rows, hw, hr, hst, _, _⟩ := h
+  exact inv_of_commit P L hL d0 d d' chain0 hb hi w rows hw hst htr
+
+/-- `commitInfo` says whether, and with which `SaveInfo`, `save` appended its revision -/
+theorem commitInfo_some (P : Params V) (L : Layout) (d0 d : Doc V) (chain0) (hb : BaseOK d0 chain0) (hi : Inv d0 d)
+    (i : SaveInfo) (h : commitInfo P L d = some i) :
+    Committed P L d (save P L d).1.st i ∧ ((save P L d).1.tr = d.tr ∨ ∃ i', (save P L d).2 = .ok i') := by
+  unfold commitInfo at h
+  by_cases hbig : d.st.refs.length + 2 > MAX_ID
+  · simp [hbig] at h
+  simp only [hbig, if_false] at h
+  generalize hw : writeChanges P L (prep d).st2.start (prep d).st2.changes
+      ⟨(prep d).st2.refs, (prep d).st2.objs, (prep d).st2.len⟩ = res at h
+  obtain ⟨w, o⟩ := res
+  cases o with
+  | ok u =>
+    cases u
+    simp only at h
+    generalize hr : rowsOf ((w.refs.set (prep d).xid (.raw (w.len - (prep d).st2.start) 0)).take ((prep d).xid + 1)) = rr at h
+    cases rr with
+    | none => simp at h
+    | some rows =>
+      simp only [Option.some.injEq] at h
+      rcases save_cases P L d0 d chain0 hb hi (by omega) with ⟨w', hw', _⟩ | ⟨w', hw', hr', _⟩ | ⟨w', rows', hw', hr', hs⟩
+      · rw [hw] at hw'; simp at hw'
+      · rw [hw] at hw'; simp only [Prod.mk.injEq, and_true] at hw'; subst hw'; rw [hr] at hr'; cases hr'
+      · rw [hw] at hw'; simp only [Prod.mk.injEq, and_true] at hw'; subst hw'
+        rw [hr] at hr'; simp only [Option.some.injEq] at hr'; subst hr'
+        rcases hs with ⟨i', tr, hs⟩ | ⟨_, hs⟩
+        · rw [hs]; exact ⟨⟨w, rows, hw, hr, rfl, h.symm, by omega⟩, Or.inr ⟨i', rfl⟩⟩
+        · rw [hs]; exact ⟨⟨w, rows, hw, hr, rfl, h.symm, by omega⟩, Or.inl rfl⟩
+  | err => simp at h
+  | panic => simp at h
+  | oof => simp at h
+
+theorem commitInfo_none (P : Params V) (L : Layout) (d0 d : Doc V) (chain0) (hb : BaseOK d0 chain0) (hi : Inv d0 d)
+    (h : commitInfo P L d = none) :
+    (save P L d).1.st.objs = d.st.objs ∧ (save P L d).1.st.secs = d.st.secs ∧ (save P L d).1.st.len = d.st.len ∧
+    (save P L d).1.st.start = d.st.start ∧ (save P L d).1.st.startxref = d.st.startxref ∧
+    (save P L d).1.st.changes = (prep d).st2.changes ∨ (save P L d).1 = d := by
+  have pf := prep_facts d0 d chain0 hb hi
+  by_cases hsz : d.st.refs.length + 2 ≤ MAX_ID
+  case neg => right; rw [save_too_big P L d (by omega)]
+  left
+  have hnb : ¬ (d.st.refs.length + 2 > MAX_ID) := by omega
+  rcases save_cases P L d0 d chain0 hb hi hsz with ⟨w, hw, hs⟩ | ⟨w, hw, hr, hs⟩ | ⟨w, rows, hw, hr, _⟩
+  · rw [hs]; exact ⟨pf.objs_eq, pf.secs_eq, pf.len_same, pf.start_same, pf.sx_same, rfl⟩
+  · rw [hs]; exact ⟨pf.objs_eq, pf.secs_eq, pf.len_same, pf.start_same, pf.sx_same, rfl⟩
+  · exfalso
+    unfold commitInfo at h
+    simp [hnb, hw, hr] at h
 
 end Storage
